@@ -7,6 +7,15 @@ replace that run by one span from `min(start, first_start)` to `max(end, last_en
 no such run the new span is inserted at its sorted position (the code inserts at 0 and sorts; on
 the sorted lists the class maintains this is the same list — checked by correspondence on
 `_spans`).
+
+`remove` is written span by span (`flatMap removeOne`).  The code mutates `_spans` while enumerating
+it: trims are done in place, a middle split replaces the span, appends the right part, sorts and
+`break`s, and completely covered spans are deleted afterwards as one slice
+`[first_complete_overlap : last_complete_overlap+1]`.  On the sorted, disjoint lists the class
+maintains (`WF`, asserted by `_check` after every mutation) this is the same list: completely
+covered spans are contiguous, and a middle split means no other span overlaps.  The lists are
+compared after every `remove` by the correspondence check.  `mem_remove` holds for arbitrary lists;
+the other theorems assume `WF`, which `wf_add`/`wf_remove`/`spans_history` show is never lost.
 -/
 namespace Tahoe.Spans
 
